@@ -422,7 +422,12 @@ pub fn generate(seed: u64) -> SockScenario {
         for _ in 0..n_ops {
             let x = g.rng.below(40);
             let (node, lane) = g.rng.pick(&targets).clone();
-            let style = g.rng.below(64) as u32;
+            let mut style = g.rng.below(64) as u32;
+            // Bits 6..: the frame is sent as two fragments (bit 6), with a ping between them (bit 7), cut at
+            // bits 8..15 / 256 of its length.
+            if g.rng.chance(1, 5) {
+                style |= 64 | if g.rng.chance(1, 2) { 128 } else { 0 } | ((g.rng.below(256) as u32) << 8);
+            }
             let requests = [Kind::Link, Kind::Sync, Kind::Unlink, Kind::Command, Kind::Command, Kind::Command];
             let responses = [Kind::Linked, Kind::Synced, Kind::Unlinked, Kind::Event, Kind::Event, Kind::Event];
             let op = match x {
